@@ -102,9 +102,22 @@ def run_shard(spec, acc):
         kwargs, nums, ids, kind, style, claim_mode = make_config(pool, rng, c + spec["i"])
         claims = {s: [hist.claim_name(rng.randrange((1 << 21) - 3), rng.choice([1851, 1855, 137, 229]), function=rng.choice([130, 140]),
                                       dev_class=rng.choice([25, 60])) for _ in range(2)] for s in sources}
-        events = hist.build_history(pool, rng, sources, n_events, claims, p_same_seq=0.35)
+        jump = False
+        events = None
         extra = co_settings(dbx, rng)
         kwargs.update(extra)
+        if extra.get("build_network_map") and rng.random() < 0.6:
+            # one source never claims, and half-way through the history the decoder's clock is past the 10-minute
+            # discovery window: from then on its traffic is returned - by both decoders alike
+            claims[rng.choice(sources)] = []
+            jump = True
+        events = hist.build_history(pool, rng, sources, n_events, claims, p_same_seq=0.35)
+        if jump and rng.random() < 0.7:
+            # often the first thing heard from the silent source is something the filter removes by number
+            quiet = [s_ for s_ in sources if not claims[s_]]
+            k = next((i for i, e in enumerate(events) if e.tag == "single" and e.src in quiet and ((e.pgn in nums) == (kind == "exclude")) and (nums or kind == "include")), None)
+            if k is not None:
+                events.insert(0, events.pop(k))
         try:
             filt = NMEA2000Decoder(**kwargs)
         except Exception as e:  # noqa: BLE001
@@ -124,7 +137,17 @@ def run_shard(spec, acc):
         acc.cover("co_settings", "+".join(sorted(extra)) or "none")
         kept = removed = 0
         bad = None
+        import contextlib
+        from ..lib import decoder_clock_box
+        stack = contextlib.ExitStack()
+        clock = stack.enter_context(decoder_clock_box()) if jump else None
+        if jump:
+            acc.count("histories_with_clock_past_discovery_window")
         for pos, ev in enumerate(events):
+            if jump:
+                # the decoder's clock moves on between frames (0 to 3 minutes at a time): the discovery window ends
+                # somewhere inside the history
+                clock["offset"] += rng.choice([0.0, 0.5, 20.0, 60.0, 180.0])
             ku, u = hist.safe_feed(plain, ev)
             kf, f = hist.safe_feed(filt, ev)
             kf2, f2 = hist.safe_feed(filt2, ev)
@@ -156,6 +179,7 @@ def run_shard(spec, acc):
                     why = "content-changed"
                 bad = (pos, why, u.PGN if u else None, u.id if u else None)
                 break
+        stack.close()
         acc.case((repr(kwargs), tuple(tuple(e.brief()) for e in events)) if (kept and removed) else None)
         acc.count("messages_kept", kept)
         acc.count("messages_removed", removed)
